@@ -6,19 +6,20 @@ import Ecal.Lemmas.EvalNew
 /-!
 # C05 — lexical scoping, functions, containers and objects
 
-Theorems about the functions of `Model/Eval.lean` (scope chain: `scopeFor`, `lookupVar`, `setValue`,
-`setLocalValue`; heap: `mapStore`, `mapFieldLookup`) and `Model/EvalObjects.lean` (`paramValue`,
-`bindParams`: the frame construction of `function.Run`) that the executable evaluator runs, stated on
-`runM m st` = result and final state of a computation.  `St.chain st f sc` is the scope `sc` followed by
-its ancestors, `St.nearest st sc v` the first scope on that chain that defines `v`.
+Theorems about the functions of `Model/Eval.lean` that the executable evaluator runs — scope chain (`scopeFor`,
+`lookupVar`, `setValue`, `setLocalValue`), heap (`mapStore`, `mapFieldLookup`, `appendVals`), call frames
+(`buildFrame`, `bindParamNodes`), builtins (`lenB`, `addB`, `insertAt`, `delB`, `concatB`) and objects (`copyProp(s)`,
+`superLoop`, `addSuperClasses`, `newB`) — stated on `runM m st` = result and final state of a computation.
+`St.chain st f sc` is the scope `sc` followed by its ancestors, `St.nearest st sc v` the first scope on that chain
+that defines `v`; `St.elems st r l` the elements of the slice `.list r l`, `St.entries st r` the entries of map `r`.
+`runFunction_uses_buildFrame`, `runBuiltin_uses`, `addSuperClasses_order`, `superLoop_order` are the unfolding
+equations that tie the mutual evaluator to these functions.
 
-Proved here: len_add_del_model, add_insert_concat_model (aliasing incl.), full call frames on `buildFrame`, objects (all templates,
-objects partially (copy loop, bound methods, init once), call_does_not_write_enclosing_frames, lookup_nearest, assign_nearest_or_local, let_local, inner_not_visible_outside,
-call_fresh_locals_partial (frame = fresh index), closure_sees_definition_scope_partial (chain of a frame),
-args_missing_default_extra_ignored, prims_by_value_containers_by_ref (aliasing through the heap cell),
-read_after_write (one map cell, number and string keys) and read_after_write_paths (any nesting, acyclic
-tree values).
-
+Proved: lookup_nearest, assign_nearest_or_local, let_local, inner_not_visible_outside, call_fresh_locals,
+closure_sees_definition_scope, call_does_not_write_enclosing_frames, args_missing_default_extra_ignored,
+prims_by_value_containers_by_ref, read_after_write (+ _list, _paths), len_add_del_model, add_insert_concat_model,
+new_has_all_template_props (transitive), own_property_wins, method_this, init_once_with_args,
+init_once_with_args_and_supers, init_reads_super, addSuperClasses_no_fuel.  Hypotheses are listed with each theorem.
 -/
 namespace Ecal.Props.C05
 open Ecal.Ev Ecal.Obj
